@@ -231,10 +231,13 @@ pub fn observe() {
 	});
 	if let Some((cl, tracer)) = taken {
 		use futures_util::FutureExt;
-		tracer.ev(json!({"ev": "Connected", "b": false}));
+		// (the reason first: when the connection went where the model has it open, the reason says whose matter that is)
 		match cl.on_disconnect().now_or_never() {
 			Some(e) => tracer.ev(json!({"ev": "OnDisconnect", "res": err_class(&e)})),
-			None => tracer.ev(json!({"ev": "Timeout", "what": "on_disconnect not ready although the connection is reported gone"})),
+			None => {
+				tracer.ev(json!({"ev": "Connected", "b": false}));
+				tracer.ev(json!({"ev": "Timeout", "what": "on_disconnect not ready although the connection is reported gone"}));
+			}
 		}
 	}
 }
